@@ -339,12 +339,12 @@ func getterLike(fn *ssa.Function) bool {
 }
 
 func getterLike1(fn *ssa.Function) bool {
+	// a small table of pure library calls
+	switch fn.String() {
+	case "bytes.Equal", "math.Ceil":
+		return true
+	}
 	if fn.Blocks == nil {
-		// external / library function: a small table of pure library calls
-		switch fn.String() {
-		case "crypto/sha256.Sum256", "bytes.Equal", "math.Ceil":
-			return true
-		}
 		return false
 	}
 	if !inModule(funcPkgPath(fn)) {
